@@ -212,7 +212,7 @@ class Session:
         self._oracle = None
         self.functions = {}
         self.rng = random.Random(seed)
-        self.query_timeout = int(os.environ.get('VERIF_QUERY_TIMEOUT', '120' if tier == 'quick' else '900'))
+        self.query_timeout = int(os.environ.get('VERIF_QUERY_TIMEOUT', '300' if tier == 'quick' else '1200'))
         self.known_findings = load_known_findings()
 
     # -- builds ----------------------------------------------------------
@@ -380,7 +380,7 @@ class Session:
         self._handle_cex(oid, E, model, bindings, rec, desc)
         return False
 
-    def no_panic(self, oid, E, pre, desc='', bindings=(), bounds=None, assumptions=None, only=None):
+    def no_panic(self, oid, E, pre, desc='', bindings=(), bounds=None, assumptions=None, only=None, split=None):
         """no panic (overflow check, unwrap, assert, index) is reachable under pre"""
         panics = [p for p in E.panics if only is None or only(p)]
         extra = {'bounds': bounds or '', 'pre': assumptions or [], 'panic_sites': len(panics)}
@@ -391,7 +391,17 @@ class Session:
             return True
         s = self._solver(E, pre)
         s.add(z3.Or(*[X.zbool(g) for (g, m, w) in panics]))
-        r, dt = self._check(s)
+        if split:
+            s2 = self._solver(E, pre)
+            s2.add(z3.Not(z3.Or(*[X.zbool(c) for c in split])))
+            r0, dt0 = self._check(s2)
+            if r0 != z3.unsat:
+                self._record(oid, 'no_panic', desc, E, 'inconclusive', dt0)
+                self.inconclusive.append('%s: case split does not cover the precondition' % oid)
+                return False
+            r, dt = self._check(s, cases=split)
+        else:
+            r, dt = self._check(s)
         if r == z3.unsat:
             rec = self._record(oid, 'no_panic', desc, E, 'holds', dt, extra)
             if not self._side_conditions(oid, E, pre, rec):
@@ -469,7 +479,7 @@ class Session:
                 agree = exp_panic
             elif out.startswith('ok'):
                 got = b.parse(out.split()[1:])
-                expected = [const_val(model.eval(X.zint(o) if not (isinstance(o, bool) or z3.is_bool(o)) else X.zbool(o), model_completion=True)) for o in b.outs]
+                expected = [None if o is None else const_val(model.eval(X.zint(o) if not (isinstance(o, bool) or z3.is_bool(o)) else X.zbool(o), model_completion=True)) for o in b.outs]
                 agree = (not exp_panic) and all(g is None or e is None or g == e for g, e in zip(got, expected))
             else:
                 got, agree = out, False
@@ -537,7 +547,7 @@ class Session:
                 ok = (ep == 1)
             elif out.startswith('ok'):
                 got = b.parse(out.split()[1:])
-                exp = [subst_eval(o, b.args, v) for o in b.outs]
+                exp = [None if o is None else subst_eval(o, b.args, v) for o in b.outs]
                 ok = (ep == 0) and all(g is None or e is None or g == e for g, e in zip(got, exp))
             else:
                 ok = False
@@ -558,7 +568,7 @@ class Session:
     # -- finishing ------------------------------------------------------------
     def finish(self, level_note='', trusted=None, assumptions=None, rule=None):
         wall = time.time() - self.t0
-        obls = [r for r in self.records if r['kind'] in ('prove', 'no_panic')]
+        obls = [r for r in self.records if r['kind'] in ('prove', 'no_panic', 'kani')]
         discharged = [r for r in obls if r['verdict'] in ('holds', 'known-finding')]
         wit = [r for r in self.records if r['kind'] == 'witness' and r['verdict'] == 'sat']
         fns = sorted({f for r in self.records for f in r.get('functions', [])})
@@ -574,7 +584,7 @@ class Session:
                 'vacuity_witnesses_sat': len(wit),
                 'traces_validated_against_impl': self.validated,
                 'functions_encoded': fns,
-                'solver': 'z3 %s (python API), integer encoding with explicit mod-2^w wrap; cvc5 1.0 cross-check in the thorough tier' % z3.get_version_string(),
+                'solver': 'engine M: z3 %s, integer encoding with explicit mod-2^w wrap, fresh context per query, cvc5 1.0 cross-check in the thorough tier; engine K: cargo kani 0.68 / CBMC 6.11 (cadical), unwinding assertions on' % z3.get_version_string(),
                 'solver_seconds': round(self.solver_s, 2), 'build_seconds': round(self.build_s, 2),
                 'checker_cmd': './verif check %s --tier %s' % (self.prop, self.tier),
                 'trusted_base': trusted or ['rustc nightly -Zunpretty=mir output for the dev profile', 'engine_m MIR parser/executor and std models (cross-checked by translator validation against the native build)', 'z3'],
